@@ -35,6 +35,8 @@ def family (kind : String) (n : Nat) : Option Bytes :=
                           ((List.range n).map fun i => tok 0x37 [] [] ++ (if i + 1 < n then tok 0x21 [] [0, 0, 0, 3] else [])).flatten)
     | "widethenmany" => some (tok 0x21 (ascii "w") [0, 0, 0, 0] ++ ((List.range n).map fun i => tok 0x21 [] (i32 i)).flatten ++
                               ((List.range n).map fun i => tok 0x21 (ascii s!"a{i}") [0, 0, 0, 1]).flatten)
+    | "widegroupthenmany" => some (((List.range n).map fun i => tok 0x21 (ascii s!"a{i}") [0, 0, 0, 1]).flatten ++
+                                   ((List.range n).map fun i => (([2, 4, 5, 1] : List UInt8)[i % 4]!)))
     | "opengroups" => some (((List.range n).map fun i =>
                               (if i > 0 then [(([1, 2, 4, 5] : List UInt8)[i % 4]!)] else []) ++
                               tok 0x34 (ascii "c") [] ++ tok 0x4a [] (ascii "m") ++ tok 0x21 [] [0, 0, 0, 1]).flatten)
